@@ -33,8 +33,10 @@ RULE = (
     "fuzzing (atheris/libFuzzer, instrumenting scriptplan) of parse+schedule with a token dictionary, seeded with the "
     "fixtures and with an empty corpus. Oracle: parse(schedule=False) either rejects - a lark error (a VisitError "
     "only if it wraps ValueError), a ValueError from scriptplan/parser, or an error message followed by SystemExit(1) "
-    "- or accepts; for accepted input schedule() returns without exception within a CPU-time bound (20 s for projects "
-    "of the generated size, confirmed by a solitary re-run with twice the limit, otherwise inconclusive) and every "
+    "- or accepts; for accepted input schedule() returns without exception within a CPU-time bound (cases over 20 s "
+    "are re-run alone after the campaign: parsing more than 40 s twice, schedule() not returning within 400 s, or "
+    "needing more than 40 s + 100 us x slots x leaves x scenarios of the horizon it scheduled is a violation, "
+    "anything else is recorded as inconclusive) and every "
     "leaf task is scheduled with project start <= start <= end <= effective project end, or unscheduled with a "
     "warning on stderr. Failures are bucketed by (exception type, innermost scriptplan module:function). Non-trivial: "
     "accepted-and-infeasible (>= 1 unscheduled leaf) or rejected after the project header. Distinct = distinct text."
@@ -73,23 +75,87 @@ def guarded_observe(text, limit=CPU_LIMIT):
 TIMEOUT_CANDIDATES = []
 
 
+PARSE_LIMIT = 40.0  # CPU seconds; parsing never depends on the horizon
+HANG_LIMIT = 400.0  # CPU seconds after which a schedule() is called a hang whatever the size
+PER_SLOT_TASK = 100e-6  # allowance per (slot of the effective horizon x leaf task x scenario); measured cost is 5-25 us
+
+
+def _under_timer(limit, fn):
+    """-> (finished, value, cpu seconds)"""
+    old = signal.signal(signal.SIGPROF, _alarm)
+    t0 = time.process_time()
+    signal.setitimer(signal.ITIMER_PROF, limit)
+    try:
+        val = fn()
+        return True, val, time.process_time() - t0
+    except CpuTimeout:
+        return False, None, time.process_time() - t0
+    finally:
+        signal.setitimer(signal.ITIMER_PROF, 0)
+        signal.signal(signal.SIGPROF, old)
+
+
+def solitary_verdict(text):
+    """Re-run a timeout candidate alone, phase by phase.  -> (violation detail or None, note)
+
+    parse: more than PARSE_LIMIT CPU seconds twice is a violation (the generated texts have <= 12 tasks).
+    schedule: a violation if it does not return within HANG_LIMIT, or if it needed more than
+    40 s + PER_SLOT_TASK x slots x leaf tasks x scenarios of the horizon it actually scheduled - honest projects
+    with a long extended horizon are slow, not stuck."""
+    import contextlib
+    import io
+
+    def do_parse():
+        with contextlib.redirect_stderr(io.StringIO()):
+            return observe.parser().parse(text, schedule=False)
+
+    for attempt in (1, 2):
+        try:
+            fin, project, cpu = _under_timer(PARSE_LIMIT, do_parse)
+        except BaseException as e:  # noqa: BLE001 - rejected after all (was slow, not stuck)
+            return None, f"re-run alone: rejected with {type(e).__name__} (inconclusive)"
+        if fin:
+            break
+    else:
+        return f"parse used more than {PARSE_LIMIT:.0f} s CPU in two solitary re-runs", ""
+
+    def do_schedule():
+        with contextlib.redirect_stderr(io.StringIO()):
+            project.schedule()
+
+    try:
+        fin, _v, cpu = _under_timer(HANG_LIMIT, do_schedule)
+    except BaseException as e:  # noqa: BLE001
+        return None, f"re-run alone: schedule raised {type(e).__name__} (inconclusive for the time bound)"
+    if not fin:
+        return f"schedule() did not return within {HANG_LIMIT:.0f} s CPU when re-run alone", ""
+    try:
+        gran = project.attributes.get("scheduleGranularity", 3600)
+        slots = max(1.0, (project["end"] - project["start"]).total_seconds() / gran)
+        leaves = sum(1 for t in project.tasks if t.leaf())
+        allowance = 40.0 + PER_SLOT_TASK * slots * max(1, leaves) * max(1, project.scenarioCount())
+    except Exception:  # noqa: BLE001
+        allowance = HANG_LIMIT
+    if cpu > allowance:
+        return f"schedule() used {cpu:.0f} s CPU alone; allowance for its size ({slots:.0f} slots, {leaves} leaves) is {allowance:.0f} s", ""
+    return None, f"slow but finished in {cpu:.1f}s CPU when re-run alone (allowance {allowance:.0f}s; inconclusive, not a violation)"
+
+
 def confirm_timeouts(out, seed, shard):
-    """Solitary re-runs with twice the limit; only a second timeout is a violation."""
-    cands = sorted(set(TIMEOUT_CANDIDATES), key=len)[:4]
+    """Solitary, phase-split re-runs of the (two smallest) timeout candidates; see solitary_verdict."""
+    cands = sorted(set(TIMEOUT_CANDIDATES), key=len)[:2]
     del TIMEOUT_CANDIDATES[:]
     for text in cands:
-        obs, cpu = guarded_observe(text, 2 * CPU_LIMIT)
-        if obs is None:
-            obs, cpu = guarded_observe(text, 2 * CPU_LIMIT)
-        if obs is None:
-            v = Violation("cpu_bound_exceeded", "project", f"parse+schedule used more than {2 * CPU_LIMIT:.0f} s CPU in two solitary re-runs", {"bucket": "timeout"})
+        detail, note = solitary_verdict(text)
+        if detail:
+            v = Violation("cpu_bound_exceeded", "project", detail, {"bucket": "timeout"})
             unknown, known = _split([v], "C11", text)
             for k in known:
                 out.known_hits[k] += 1
             if unknown and out.violation is None:
                 out.violation = _viol_payload("C11", "hostile", text, unknown, seed, shard, text[:1500])
         else:
-            out.notes.append(f"slow but finished in {cpu:.1f}s CPU when re-run alone (inconclusive, not a violation)")
+            out.notes.append(note)
 
 
 REJECT_TYPES = ("UnexpectedToken", "UnexpectedCharacters", "UnexpectedEOF", "UnexpectedInput", "LarkError", "LexError", "ParseError")
@@ -154,6 +220,17 @@ def eval_text(text):
         r.nontrivial = _err_pos(obs) > text.find("{") > 0
     if r.nontrivial:
         r.sample = text[:1500]
+    return r
+
+
+def replay_evaluate(text):
+    """Replay (and corpus regression) of one text: like eval_text, but a timeout is decided at once by the solitary re-run."""
+    r = eval_text(text)
+    if "timeout_candidate" in r.classes:
+        del TIMEOUT_CANDIDATES[:]
+        detail, _note = solitary_verdict(text)
+        if detail:
+            r.violations = [Violation("cpu_bound_exceeded", "project", detail, {"bucket": "timeout"})]
     return r
 
 
